@@ -31,3 +31,8 @@ add('C09', 'ENUM', 'exploration',
     'BranchCascade (build/add_branch/update_versions/finalize/validate) is run on every subset of a 15-branch universe x tag sets x destination, and on every discovery order, and compared with a reference computed from the statement (targets, ignored, fix versions, rejection of ill-formed cascades).',
     'FakeRepo returns git branch / git tag text and answers ancestry positively (inclusion itself is C01); cases the statement leaves open are counted in the evidence.',
     'exhaustive input enumeration vs reference oracle', 'DESIGN.md section 5 C09')
+
+add('C11', 'ENUM', 'exploration',
+    'jira_checks is run on every combination of source name, target list, ticketless flags, issue (absent / type x every subset of a fix-version universe) and settings, and compared with the decision ladder of the statement; a repository stub that raises on any command proves the repository is untouched.',
+    'bert_e.lib.jira.JiraIssue replaced by a table-driven fake; expected versions given (C09 checks their computation).',
+    'exhaustive input enumeration vs reference oracle', 'DESIGN.md section 5 C11')
